@@ -115,3 +115,5 @@ package api
 // ======================= lock discipline (C20) =======================
 //@ guarded ServiceDetails.ipv4, ServiceDetails.shipID, ServiceDetails.deviceType, ServiceDetails.autoAccept, ServiceDetails.trusted, ServiceDetails.connectionStateDetail by ServiceDetails.mux
 //@ guarded ConnectionStateDetail.state, ConnectionStateDetail.error by ConnectionStateDetail.mux
+
+//@ fieldcover ServiceDetails, ConnectionStateDetail
